@@ -242,7 +242,7 @@ def run_batch(pid, spec, seed, scale, tag):
         fams = b.get("families")
         known_fams = dict(bin_spec(spec, b["bin"])["checkers"])
         for f_, d_ in spec.get("family_types", {}).items(): known_fams.update(d_["checkers"])
-        unknown = sorted({f for f, _ in cases if f not in known_fams})
+        unknown = sorted({f for f, _ in cases if f not in known_fams and (fams is None or f in fams)})
         if unknown:
             problems.append("harness %s printed case families without a checker: %s" % (b["bin"], unknown))
         all_cases += [(f, t, b["bin"]) for f, t in cases if (fams is None or f in fams) and f in known_fams]
@@ -374,6 +374,12 @@ def classify(pid, spec, cases, codes, known):
             uneval += 1; continue
         if c == 4:
             skipped.append(i); continue
+        if c >= 16:
+            # model and implementation differ inside a known class decided by the checker itself
+            k = PROPS_MOD.match_known_class(pid, known, c // 16)
+            if k: knownhits.append((i, k))
+            else: corr.append(i)
+            c = c % 16
         if c & 2:
             k = PROPS_MOD.match_known(pid, known, cases[i])
             if k: knownhits.append((i, k))
